@@ -10,7 +10,7 @@ RULES = {"C07.a", "C07.b", "C07.c", "C05.d"}
 
 def check(ctx):
     ctx.assume("valid configuration: at least one mode, transitions to existing modes, set_mode with an existing mode (property quantifier)")
-    kernel.analyze(ctx, RULES | {"C12.d"})
+    kernel.analyze(ctx, RULES | {"C12.d", "C05.a"})   # (C05.a, C10.c below: premises the panic table cites for the unwraps of find_from and the slices at the offset)
     # the premise of the unwrap in priority_of: the search over terminal_ids finds every label, whatever their order
     from .pC01 import priority_rules
     priority_rules(ctx)
@@ -20,7 +20,9 @@ def check(ctx):
     # or ends the loop; "all sequences of iterator calls" includes peeks, and a peek that does not return is no progress)
     # (C11.a: an attempt writes nothing a later call reads — a result remembered across calls is replayed at a position it was
     # not computed for, and its span need not fit the text there)
-    cursor.analyze(ctx, RULES | {"C09.a", "C10.b", "C10.a", "C01.e", "C11.b", "C11.a"})   # C01.e: reported span = attempt span shifted once by the offset (non-empty, in bounds)
+    # (C09.b: the sorted, duplicate-free insertion into the line table is what the debug_assert! of merge_line_offsets relies on —
+    # rules/panics.py justifies that site with it, so it is decided here as well: a duplicate entry panics the next scan step)
+    cursor.analyze(ctx, RULES | {"C09.a", "C10.b", "C10.a", "C01.e", "C11.b", "C11.a", "C09.b", "C10.c"})   # C01.e: reported span = attempt span shifted once by the offset (non-empty, in bounds)
     # (C06.i: every mode the caller adds is compiled, at the position it was added — the precondition "transitions go to
     # existing modes" is stated in the caller's numbering; a builder that drops, merges or reorders modes makes a valid
     # configuration index past the end of the compiled list)
